@@ -35,6 +35,14 @@ func runC13(c *core.Ctx) {
 	ruleRangeIndexStep(c)
 	ruleIncrementBase(c)
 	ruleRectangularRanges(c)
+	ruleAliasHygiene(c, [3]string{"C13-R11", "C13-R12", "C13-R13"}, cmapPkg)
+	ruleMethodsPure(c, "C13-R14", cmapPkg, 5, func(fn *core.Func, recv types.Type) bool {
+		if !(core.IsNamed(recv, cmapPkg, "File") || core.IsNamed(recv, cmapPkg, "ToUnicodeFile")) {
+			return false
+		}
+		n := fn.Obj.Name()
+		return strings.HasPrefix(n, "Lookup") || n == "All" || n == "CodeForText" || n == "GetMapping" || n == "Equal" || n == "IsPredefined"
+	})
 }
 
 func runC14(c *core.Ctx) {
